@@ -26,12 +26,12 @@ def run(rep, tier):
         tier_table(rep, "T6-insertSpace-interval", "insertSpace", "interval", k, gap, MODES,
                    lambda I, t, sy, mode: I.call_value(I.getattr(t, "insertSpace"), [sy["p"], sy["d"], mode], {}),
                    lambda O, ents, m, M, sy, mode: specs.insert_space_interval(O, ents, m, M, sy["p"], sy["d"], mode),
-                   "%d generic entries x insertion point p, duration d>0" % k, seams=True)
+                   "%d generic entries x insertion point p, duration d>0" % k, seams=True, exact=True)
     for k in ks:
         tier_table(rep, "T6-insertSpace-point", "insertSpace", "point", k, gap, ["error"],
                    lambda I, t, sy, mode: I.call_value(I.getattr(t, "insertSpace"), [sy["p"], sy["d"]], {}),
                    lambda O, ents, m, M, sy, mode: specs.insert_space_point(O, ents, m, M, sy["p"], sy["d"]),
-                   "%d generic points x insertion point p, duration d>0" % k)
+                   "%d generic points x insertion point p, duration d>0" % k, exact=True)
 
     def compose(I, t, sy, mode):
         t2 = I.call_value(I.getattr(t, "insertSpace"), [sy["p"], sy["d"], mode], {})
